@@ -31,6 +31,7 @@ EXPLANATION = (
     ' R1 evaluates the message expression of every rejection raise site for all 256 code bytes (any representation of the reason table).'
     ' (R5) for a well-formed exception answer (function code = cmd | 0x80, one code byte, RTU: correct CRC) to a read, write and write-multi command every validator outcome other than the rejection raise is refuted.'
     ' (R6) no loop callback schedules a method of the protocol object after completing the response future: the deferred call would act on the next request.'
+    ' (R7, shared with C05.R2) the retry counter is reset wherever a request ends, a rejection included.'
 )
 
 
@@ -134,6 +135,14 @@ def check(ctx: Ctx, rep: Report):
     rep.rule("C08.R6", "the rejection is delivered with everything settled: no call on the protocol object is deferred (call_soon / call_later) after the future was completed - it would hit the caller's next request (retransmission, lost reason)", 6)
     from .proto import no_deferred_after_completion
     no_deferred_after_completion(ctx, rep, "C08.R6")
+    rep.rule("C08.R7", "an exception answer to a retransmission is still delivered: the retry counter is reset wherever a request ends (also by a rejection), so the next request has its whole budget (shared with C05.R2)", 8)
+    from .c05 import r2 as _c05_r2
+    from ..core import Report as _R7
+    _s7 = _R7("C05", rep.tier)
+    _c05_r2(ctx, _s7)
+    for o in _s7.obligations:
+        if o.rule == "C05.R2":
+            rep.obligations.append(type(o)("C08.R7", o.key, o.where, o.what, o.status, o.detail))
     r2(ctx, rep, rejected)
     r3(ctx, rep, rejected, table)
     # ---- R4 shared with C07: an exception frame answering a retransmission must not be glued to a fragment of the
